@@ -139,13 +139,17 @@ static Tape Shrink(const Tape& orig, const Profile& prof, const std::string& pro
     RunResult rr = RunAny(cand, prof, profile, tier);
     return HasViolation(rr, prop, cls);
   };
+  // expensive runs (a violation that is itself a runaway loop costs seconds per
+  // re-run) get a CPU-time cap as well: whatever is reached by then is reported
+  const clock_t t0 = clock();
+  auto in_time = [&]() { return (double)(clock() - t0) / CLOCKS_PER_SEC < 75.0; };
   bool progress = true;
-  while (progress && *reruns < budget) {
+  while (progress && *reruns < budget && in_time()) {
     progress = false;
     for (auto& kv : orig.rec) {
       int st = kv.first;
       // 1. truncate the stream (exhausted tape reads as 0 = simplest choice)
-      for (size_t cut = 0; cut < best.rec[st].size() && *reruns < budget; ) {
+      for (size_t cut = 0; cut < best.rec[st].size() && *reruns < budget && in_time(); ) {
         Tape c = best;
         size_t keep = cut;
         if (keep >= c.rec[st].size()) break;
@@ -154,7 +158,7 @@ static Tape Shrink(const Tape& orig, const Profile& prof, const std::string& pro
         cut = cut ? cut * 2 : 1;
       }
       // 2. zero individual values
-      for (size_t i = 0; i < best.rec[st].size() && *reruns < budget; i++) {
+      for (size_t i = 0; i < best.rec[st].size() && *reruns < budget && in_time(); i++) {
         if (best.rec[st][i] == 0) continue;
         Tape c = best;
         c.rec[st][i] = 0;
@@ -203,7 +207,7 @@ int main(int argc, char** argv) {
       Tape t;
       t.seed = RunSeed(seed, i);
       t.scen_seed = scen_seed;
-      ArmWatchdog(60);
+      ArmWatchdog(20);
       RunResult rr = RunAny(t, prof, profile, tier);
       ArmWatchdog(0);
       if (verbose) HPrintf("%s", rr.decoded.c_str());
@@ -224,7 +228,7 @@ int main(int argc, char** argv) {
     tier = JsonStr(doc, "tier");
     Profile prof = GetProfile(profile, tier == "thorough");
     if (cmd == "replay") {
-      ArmWatchdog(60);
+      ArmWatchdog(20);
       RunResult rr = RunAny(t, prof, profile, tier);
       ArmWatchdog(0);
       if (verbose) HPrintf("%s", rr.decoded.c_str());
